@@ -151,6 +151,12 @@ fn ortho_case<const K: usize>(case: &Case, l: &mut Local) {
     }
 }
 
+
+/// Two observation vectors agree within 1e-9 (relative to their magnitude)
+fn close_vec(a: &[f64], b: &[f64]) -> bool {
+    a.len() == b.len() && a.iter().zip(b.iter()).all(|(x, y)| (x - y).abs() <= 1e-9 * (1.0 + x.abs().max(y.abs())))
+}
+
 const CENTRES: [(f64, f64); 3] = [(0.0, 0.0), (3.0, -2.0), (100.0, -50.0)];
 const RADII: [f64; 3] = [0.5, 2.0, 10.0];
 const EXTENTS: [f64; 4] = [60.0, 120.0, 200.0, 360.0];
@@ -265,13 +271,13 @@ fn circle_hist_case(case: &Case, l: &mut Local) {
         let fresh = guarded(|| verif_observe_circle_fit(&pts, &initial, mode, &last));
         match (got, fresh) {
             (Ok(a), Ok(b)) => {
-                let same = a.0 == b.0 && a.1 == b.1 && a.2 == b.2 && a.3.center == b.3.center && a.3.r() == b.3.r();
+                let same = close_vec(&a.0, &b.0) && close_vec(&a.1, &b.1) && close_vec(&a.2, &b.2) && (a.3.center - b.3.center).norm() <= 1e-9 * (1.0 + a.3.r()) && (a.3.r() - b.3.r()).abs() <= 1e-9 * (1.0 + a.3.r());
                 l.outcome(hash_of(&(h.len(), same)));
                 l.bucket("set_params history");
                 l.check("the fit problem's observations depend only on the last parameters set", "", same, mk, || format!("history {:?}: residuals {:?} vs fresh {:?}", h, a.1, b.1));
                 // params equal what was set, circle equals params
                 if let Some(x) = hist.last() {
-                    let ok = a.0 == x.to_vec() && a.3.center.x == x[0] && a.3.center.y == x[1] && a.3.r() == x[2];
+                    let ok = close_vec(&a.0, x) && close_vec(&[a.3.center.x, a.3.center.y, a.3.r()], x);
                     l.check("parameters and circle equal the last parameters set", "", ok, mk, || format!("{:?} vs {:?}", a.0, x));
                 }
             }
